@@ -18,6 +18,19 @@ func main() {
 	switch os.Args[1] {
 	case "explore":
 		explore(os.Args[2:])
+	case "externals":
+		P, err := gosym.Load("/repo", []string{"/verif/harness"}, []string{"./homescript/..."})
+		if err != nil {
+			fmt.Println(err)
+			os.Exit(2)
+		}
+		fs, gs := P.Externals()
+		for k, v := range fs {
+			fmt.Printf("FUNC %s  <- %d e.g. %s\n", k, len(v), v[0])
+		}
+		for k, v := range gs {
+			fmt.Printf("GLOBAL %s  <- %d e.g. %s\n", k, len(v), v[0])
+		}
 	case "run":
 		runCmd(os.Args[2:])
 	default:
